@@ -191,10 +191,10 @@ def build_h3():
 
 def specs(tier):
     return [
-        Spec("h1_guard_create", build_h1(False), cfg=cfg(False), unwind=3, timeout=600,
+        Spec("h1_guard_create", build_h1(False), cfg=cfg(False), unwind=3, timeout=1800,
              desc="real guarded_create::<false> (CREATE) decision table; interpreter / host / revm create uninterpreted", bounds={"addresses": NA, "forks": "all"}),
-        Spec("h1_guard_create2", build_h1(True), cfg=cfg(True), unwind=3, timeout=600,
+        Spec("h1_guard_create2", build_h1(True), cfg=cfg(True), unwind=3, timeout=1800,
              desc="real guarded_create::<true> (CREATE2) decision table", bounds={"addresses": NA, "forks": "all"}),
-        Spec("h3_for_spec", build_h3(), cfg=cfg(False), unwind=3, timeout=600,
+        Spec("h3_for_spec", build_h3(), cfg=cfg(False), unwind=3, timeout=1800,
              desc="real DelegatedSafetyConfig::for_spec for every fork and flag pair", bounds={"forks": "all"}),
     ]
